@@ -101,6 +101,9 @@ def apply_step(step, vals, st_, is_dask, res):
             val = df[a] - getattr(df[a], step["red"])()
         name = res.setdefault("name", list(df.columns)[step["shadow"] % len(df.columns)] if step["shadow"] is not None else f"n{len(vals)}")
         return df.assign(**{name: val})
+    if op == "astype":
+        # a (possibly narrowing) cast of one numeric column: a later filter on it must see the CONVERTED values
+        return df.astype({_pick(res, "c", _num(df, is_dask), step["col"]): step["to"]})
     if op == "drop":
         cols = list(df.columns)
         if len(cols) < 2:
@@ -313,7 +316,22 @@ def program(draw):
     return spec
 
 
+def astype_filter_cases(tier):
+    """A narrowing astype (the key column holds 0..899: values wrap around in int8/uint8) followed by filters / projections on
+    the converted frame: the optimizer may only push a predicate below a cast that cannot change what the predicate sees."""
+    import itertools
+
+    frame2 = {"nrows": 3, "seed": 1, "columns": [{"name": "k", "kind": "key", "card": 4}, {"name": "r", "kind": "float", "nan": 0.0}, {"name": "s", "kind": "int"}], "index": {"kind": "range", "name": None}, "partition": {"how": "npartitions", "n": 1, "sort": True}}
+    for n, seed, to, col, (cmp_, thr) in itertools.product((1, 3), (1, 2), ("int8", "uint8", "int16", "float32"), (0, 1), ((">", 0), ("<", 100), (">=", -20))):
+        frame = {"columns": [{"name": "k", "kind": "key", "card": 900}, {"name": "x", "kind": "int"}], "index": {"kind": "range", "name": None}, "nrows": 14, "seed": seed, "partition": {"how": "npartitions", "n": n, "sort": True}}
+        flt = {"op": "filter", "src": 1, "col": col, "cmp": cmp_, "thr": thr, "red": None}
+        for tail in ([], [{"op": "project", "src": 2, "mask": 1}], [{"op": "filter", "src": 2, "col": 1 - col, "cmp": "<", "thr": 10, "red": None}]):
+            yield {"frame": frame, "frame2": frame2, "steps": [{"op": "astype", "src": 0, "col": col, "to": to}, flt] + tail}
+
+
 SUBCHECKS = [
+    Sub("astype-filter", check, kind="enum", cases=astype_filter_cases, nontrivial=lambda spec: spec["steps"][0]["to"] in ("int8", "uint8"), classes=classes, exhaustive=True,
+        doc="astype of a column holding 0..899 to int8/uint8/int16/float32 followed by a filter on either column (+ projection / second filter), 1|3 partitions: pandas == lowered == optimized == compute()"),
     Sub(
         "programs",
         check,
